@@ -244,6 +244,12 @@ INVALID = [
     ("first_arg_bytes", [b"x"], {}),
     ("first_arg_list", [["x"]], {}),
     ("style_unknown", ["x"], {"style": "shiny"}),
+    ("style_empty_string", ["x"], {"style": ""}),
+    ("style_none", ["x"], {"style": None}),
+    ("style_zero", ["x"], {"style": 0}),
+    ("style_false", ["x"], {"style": False}),
+    ("style_empty_with_colour", ["x"], {"style": "", "fg": "red"}),
+    ("positional_empty_string", ["x", ""], {}),
     ("style_nonstr", ["x"], {"style": 1}),
 ]
 # wrong-case names: working like the lowered name, or ValueError - nothing else
@@ -324,6 +330,7 @@ def strategy():
                         st.sets(st.integers(0, 2), max_size=2)).map(uniform_with_empties)
     base = st.one_of(
         st.fixed_dictionaries({"base": uniform}),
+        st.fixed_dictionaries({"base": gen.desc(alphabet="31m[4;0", max_runs=3, max_len=3)}),
         st.fixed_dictionaries({"base": gen.desc_sized(alphabet="abc \n", max_runs=4, max_len=3)}),
         st.fixed_dictionaries({"base_str": gen.text("abc \n", 0, 4)}),
     )
